@@ -6,6 +6,7 @@ package seqx
 
 import (
 	"fmt"
+	"os"
 	"sync"
 	"sync/atomic"
 )
@@ -34,6 +35,8 @@ type Config struct {
 	Workers   int
 	OutOfTime func() bool
 	// OnViolation receives the shortest trace found for each violation instance.
+	// Known: violations with a key listed as a known finding do not stop the expansion of the state
+	Known       func(key string) bool
 	OnViolation func(trace []string, v Viol)
 	// OnInfra receives infrastructure errors (hang, nondeterminism); exploration of that branch stops.
 	OnInfra func(trace []string, err error)
@@ -63,6 +66,9 @@ func Run(cfg Config, trace []string) (Sys, []Viol, error) {
 			return s, vs, fmt.Errorf("event %d (%s): %w", i, ev, err)
 		}
 		vs = append(vs, s.Check()...)
+		if os.Getenv("VERIF_TRACE_DUMP") != "" {
+			fmt.Fprintf(os.Stderr, "after %d %s: %s\n", i, ev, s.Fingerprint())
+		}
 	}
 	return s, vs, nil
 }
@@ -158,7 +164,13 @@ func Explore(cfg Config) Stats {
 								cfg.OnViolation(tr, v)
 							}
 						}
-						if len(vs) > 0 {
+						blocking := 0
+						for _, v := range vs {
+							if cfg.Known == nil || !cfg.Known(v.Key) {
+								blocking++
+							}
+						}
+						if blocking > 0 {
 							continue // a violating state is reported, not expanded (its successors are consequences)
 						}
 						mu.Lock()
